@@ -58,8 +58,15 @@ THEOREMS = [
     "Jinns.Loaders.rowIs_batchOf",
     "Jinns.Loaders.c15ObsBatch_batchOf",
     "Jinns.Loaders.obs_history_holds",
+    "Jinns.Loaders.param_history_holds",
+    "Jinns.Loaders.param_history_holds_perkey",
+    "Jinns.Loaders.param_key_epochs",
+    "Jinns.Loaders.multi_history_holds",
+    "Jinns.Loaders.paramRecord_length",
+    "Jinns.Loaders.paramTrace_length",
+    "Jinns.Loaders.multiRun_shape",
 ]
-LEAN_MODULES = ["JinnsProofs.C15"]
+LEAN_MODULES = ["JinnsProofs.C15", "JinnsProofs.C15Holds"]
 RULE = ("cases = an observation loader (table shapes, observed parameters, b, number of get_batch calls), a parameter "
         "loader (per key: range and/or user table with its shape; method; n, b; calls), a multi-network loader (per "
         "network: tables or None), or constructor arguments that must be rejected; entry (table t, row i, column c) of "
